@@ -54,6 +54,9 @@ def run(prog, rep):
                       'quotes seen x last CR', floor=2)
     from rules import csvscan
     csvscan.check(prog, rep, 'R10.9')
+    rep.rule('R10.10', 'MsgPack stream reader: a string delivered in several chunks is assembled in order (the memory reader views the text in place)', floor=1)
+    from rules import chunkasm
+    chunkasm.check(prog, rep, 'R10.10')
     c09.check_lookahead_fresh(prog, rep, 'R10.6')       # the stream reader must notice the end of input exactly where the memory reader does
 
     try:
